@@ -197,6 +197,15 @@ def grammar_rules(ctx, lib):
         if kw not in grams:
             continue
         b, g, e = grams[kw]
+        cf = closure_form(lib, e) if g[0] != "rmap" else None
+        if cf is not None:
+            # a shared helper that *returns* the parser closure, `binary_connective(kw, Formula::V)(input)` (inlined by mirlib/inline.py): the closure is read with its
+            # captures - the keyword and the variant constructor - substituted
+            g1, applied, value = cf
+            ok = g1 is not None and linear(g1) == [(False, ("tag", kw)), (True, ("ref", "formula_pair"))] and applied
+            ctx.ob(rb, kw, ok, where=b.where(), expected="~'%s' <formula_pair>" % kw, found=lin_str(linear(g1)) if g1 else None)
+            ctx.ob(ro, "%s->%s" % (kw, variant), value == (variant, ["0", "1"]), where=b.where(), expected="Formula::%s(Box::new(first), Box::new(second))" % variant, found=str(value))
+            continue
         tf = try_form(b, e) if g[0] != "rmap" else None
         if tf is not None:
             # `let (rest, (l, r)) = preceded(tag(kw), formula_pair)(input)?; Ok((rest, Formula::V(Box::new(l), Box::new(r))))` - also after a shared helper that takes the
@@ -316,6 +325,47 @@ def grammar_rules(ctx, lib):
                 if p.startswith("nom::") and flow.last(p) in ("cut", "fail"):
                     cuts.append(bd.where(t.get("loc")))
     ctx.ob(ra, "no-cut", not cuts, expected="no cut/fail combinator in the parser", found=cuts)
+
+
+def closure_form(lib, e):
+    """e = <local closure with captures>(input) where the closure body is `P(input).map(|(rest, (l, r))| (rest, V(Box::new(l), Box::new(r))))`
+    -> (grammar of P, P is applied to the closure's own input, (variant, [boxed payload components in order])) or None"""
+    if not (e[0] == "call" and e[3] and e[3][0][0] == "closure" and len(e[3]) == 2 and e[3][1] == ("tuple", (("param", 1),))):
+        return None
+    clo = e[3][0]
+    cb = lib.body(clo[1])
+    if cb is None:
+        return None
+    cr = flow.subst_upvars(flow.closure_ret(lib, cb), list(clo[2]))
+    g = G(cr)
+    if g[0] != "rmap" or g[2][0] != "closure":
+        return None
+    applied = cr[0] == "call" and cr[3] and cr[3][0][0] == "call" and cr[3][0][3] and cr[3][0][3][-1] == ("tuple", (("param", 2),))
+    inner = g[2]
+    icb = lib.body(inner[1])
+    if icb is None:
+        return g[1], applied, None
+    icaps = [flow.subst_upvars(c_, list(clo[2])) for c_ in inner[2]]
+    icr = flow.subst_upvars(flow.closure_ret(lib, icb), icaps)
+    value = None
+    if icr[0] == "tuple" and len(icr[1]) == 2 and icr[1][0] == ("field", ("param", 2), "0"):
+        v = icr[1][1]
+        comps = name = None
+        if v[0] == "adt" and "Formula" in v[1]:
+            name, comps = v[2], [x_ for _, x_ in sorted(v[3])]
+        elif v[0] == "call" and v[3] and v[3][0][0] == "fnitem" and "parser::Formula::" in v[3][0][1] and v[1] == "<indirect>":
+            name, comps = v[3][0][1].split("::")[-1], list(v[3][1:])
+        elif v[0] == "call" and "parser::Formula::" in flow.sg(v[1]):
+            name, comps = flow.sg(v[1]).split("::")[-1], list(v[3])
+        if comps is not None:
+            args = []
+            for c_ in comps:
+                if c_[0] == "call" and flow.last(c_[2]) == "new" and "Box" in c_[1] and c_[3] and c_[3][0][0] == "field" and c_[3][0][1] == ("field", ("param", 2), "1"):
+                    args.append(c_[3][0][2])
+                else:
+                    args.append("?")
+            value = (name, args)
+    return g[1], applied, value
 
 
 def try_form(b, e):
